@@ -237,6 +237,7 @@ fn walk_calendar(cal: &str, cals: &[String], crate_al: &[(String, String)], thor
                 let to = if r.chance(1, 4) { to.to_uppercase() } else { to };
                 let to: Vec<String> = to.chars().map(|x| x.to_string()).collect();
                 t.call("Cal.WithCalendar", json!({"from": cal, "to": to, "n": day, "iso": date_json(day)}));
+                t.call("Cal.WithCalendarDT", json!({"from": cal, "to": to, "n": day, "iso": date_json(day)}));
             }
         }
         t.reset();
